@@ -47,6 +47,10 @@ class Unit:
         self.parts = []
         self.functions = []  # (file, header) for the evidence
         self.drops = set()
+        # opt-in: every function() also extracts the file-local static helpers its body calls (helpers()); names in
+        # auto_helpers_known are modelled elsewhere (stubs) and are not taken
+        self.auto_helpers = False
+        self.auto_helpers_known = ()
 
     # -- low-level ---------------------------------------------------------------------
     def raw(self, ctext):
@@ -97,6 +101,8 @@ class Unit:
             nloops = 0 if not loops else None
             if nloops is None:
                 raise ExtractionBreak('%s: nloops required with loop contracts' % where)
+        if self.auto_helpers and emit:
+            self.helpers(src, rel, body, known=self.auto_helpers_known)
         body = self._post(body, where, rules, generic, ret_zero, loops, nloops, witness, classmap, may_throw,
                           fname=_c_name(new_header if new_header is not None else header))
         if body_prefix:
